@@ -1,9 +1,109 @@
 import LinfaSpec.Model.Proto
+import LinfaSpec.Model.Scalar
+import LinfaSpec.Model.Predict
 
 namespace LinfaSpec.Drv.C03
-open LinfaSpec.Proto
+open LinfaSpec.Proto LinfaSpec.Predict
 
-/-- stub: replaced when the property's model lands -/
-def handle (_toks : List String) : String := "bad-op"
+/-- scripted member: on a batch of row tags it answers `tab[tag]` per row; `adj = 1` appends one
+spurious cell, `adj = 2` drops the last cell (ill-behaved members, outside the property) -/
+def scripted {β : Type} (tab : List β) (extra : β) (adj : Nat) (tags : List Nat) : List β :=
+  let out := tags.filterMap fun t => tab[t]?
+  if adj = 1 then out ++ [extra] else if adj = 2 then out.dropLast else out
+
+def handleMt (toks : List String) : Option String := do
+  let tags ← argNats toks "tags"
+  let tab ← argInts2 toks "tab"
+  let adj ← argNats toks "adj"
+  if tab.length ≠ adj.length then none
+  let members := (tab.zip adj).map fun (t, a) => scripted t (-1 : Int) a
+  match multiTargetBatch members tags with
+  | none => some "panic"
+  | some out => some ("ok " ++ showList2 toString out)
+
+def handleMc (toks : List String) : Option String := do
+  let tags ← argNats toks "tags"
+  let labels ← argNats toks "labels"
+  let tab ← argNats2 toks "tab"
+  let adj ← argNats toks "adj"
+  if tab.length ≠ adj.length ∨ tab.length ≠ labels.length then none
+  let members := (labels.zip (tab.zip adj)).map fun (l, t, a) =>
+    (l, fun tags => (scripted t 0 a tags).map fun q => Float.ofNat q / 64)
+  some ("ok " ++ showList toString (multiClassBatch members tags 0))
+
+def showPr (p : Float32) : String := "~" ++ showF64 p.toFloat
+
+def handlePlatt (toks : List String) : Option String := do
+  let a ← argF64 toks "a"; let b ← argF64 toks "b"; let xs ← argF64s toks "xs"
+  match plattBatch (β := Float32) Float.toFloat32 (fun (r : List Float) => r) a b xs with
+  | none => some "panic"
+  | some ps => some ("ok " ++ showList showPr ps)
+
+def handleKmeans (toks : List String) : Option String := do
+  let cents ← argF64s2 toks "cents"; let rows ← argF64s2 toks "rows"
+  match kmeansBatch cents rows with
+  | none => some "panic"
+  | some l => some ("ok " ++ showList toString l)
+
+def showT (x : Float) : String := "~" ++ showF64c x
+
+def handleAffine (toks : List String) : Option String := do
+  let w ← argF64s toks "w"; let b ← argF64 toks "b"; let rows ← argF64s2 toks "rows"
+  some ("ok " ++ showList showT (affineBatch rows w b))
+
+def handleLinmap (toks : List String) : Option String := do
+  let mean ← argF64s toks "mean"; let std ← argF64s toks "std"
+  let cols ← argF64s2 toks "cols"; let bias ← argF64s toks "bias"
+  let rows ← argF64s2 toks "rows"
+  some ("ok " ++ showList2 showT (linMapBatch mean std cols bias rows))
+
+/-- pre-order tree: `L<label>` | `S<feature>:<hex threshold>` followed by the two subtrees -/
+def parseTree : Nat → List String → Option (Tree Float Nat × List String)
+  | 0, _ => none
+  | _, [] => none
+  | fuel + 1, t :: rest =>
+    if t.startsWith "L" then
+      ((t.drop 1).toString.toNat?).map fun l => (Tree.leaf l, rest)
+    else if t.startsWith "S" then
+      match ((t.drop 1).toString.splitOn ":") with
+      | [f, h] =>
+        match f.toNat?, parseF64 h, parseTree fuel rest with
+        | some f, some thr, some (lo, rest1) =>
+          match parseTree fuel rest1 with
+          | some (hi, rest2) => some (Tree.node f thr lo hi, rest2)
+          | none => none
+        | _, _, _ => none
+      | _ => none
+    else none
+
+def handleTree (toks : List String) : Option String := do
+  let t ← arg toks "t"
+  let rows ← argF64s2 toks "rows"
+  let ts := t.splitOn ","
+  match parseTree (ts.length + 1) ts with
+  | some (tree, []) =>
+    match treeBatch tree rows with
+    | none => some "panic"
+    | some l => some ("ok " ++ showList toString l)
+  | _ => none
+
+def handleIso (toks : List String) : Option String := do
+  let reg ← argF64s toks "reg"; let resp ← argF64s toks "resp"; let rows ← argF64s2 toks "rows"
+  match isoBatch reg resp rows with
+  | none => some "panic"
+  | some l => some ("ok " ++ showList showF64c l)
+
+def handle (toks : List String) : String :=
+  let r := match toks with
+    | "mt" :: rest => handleMt rest
+    | "mc" :: rest => handleMc rest
+    | "platt" :: rest => handlePlatt rest
+    | "kmeans" :: rest => handleKmeans rest
+    | "affine" :: rest => handleAffine rest
+    | "linmap" :: rest => handleLinmap rest
+    | "tree" :: rest => handleTree rest
+    | "iso" :: rest => handleIso rest
+    | _ => none
+  r.getD "bad-op"
 
 end LinfaSpec.Drv.C03
